@@ -261,7 +261,7 @@ def _collected_then_visited_where_written(prog, t, sw, tgt, fld, rets):
         return False
     head = loop_of(t, rec[0].bb)[0]
     elem = re.escape(vexpr(t, rec[0].args[0]))
-    gs = [g for g in _g.guard_set(prog, t, rec[0].bb) if not _g._LOOP_HAS_NEXT.match(g) and not re.search(r'definition is not Unpatched$', g)]
+    gs = [g for g in _g.expand_predicates(prog, t, _g.guard_set(prog, t, rec[0].bb)) if not _g._LOOP_HAS_NEXT.match(g) and not re.search(r'definition is not Unpatched$', g)]
     comp = {'eq': 'ne', 'ge': 'lt', 'le': 'gt'}
     body = lambda op, f_: r'%s\(span\(%s\)\.%s,span\(arg1\)\.%s\)' % (op, elem, f_, f_)
     pat = lambda op, f_: any(re.match('^' + body(op, f_) + '$', g) or re.match(r'^!\(' + body(comp[op], f_) + r'\)$', g) for g in gs)
@@ -279,7 +279,7 @@ def _descends_when_written_here(prog, t):
     rec = [c for c in f.calls() if c.name() == 'visit_with' and c.resolved == t.path and not f.blocks[c.bb].get('cleanup')]
     if len(rec) != 1 or vexpr(f, rec[0].args[0]) != 'arg2':
         return False
-    gs = _g.guard_set(prog, f, rec[0].bb)
+    gs = _g.expand_predicates(prog, f, _g.guard_set(prog, f, rec[0].bb))
     comp = {'eq': 'ne', 'ge': 'lt', 'le': 'gt'}      # the same test written as the negation of its complement (early return instead of nested if)
     body = lambda op, fld: r'%s\(tuple\(span\(arg2\),span\(arg1\.0\)\)\.0\.%s,tuple\(span\(arg2\),span\(arg1\.0\)\)\.1\.%s\)' % (op, fld, fld)
     pat = lambda op, fld: any(re.match('^' + body(op, fld) + '$', g) or re.match(r'^!\(' + body(comp[op], fld) + r'\)$', g) for g in gs)
